@@ -14,6 +14,15 @@ let api_of_name = function
   | "saslhandshake" -> ASaslHandshake | "saslauthenticate" -> ASaslAuthenticate
   | s -> failwith ("unknown api " ^ s)
 
+(* name + optional action list ("a1/a2/..."): the batch-reading operations *)
+let api_of_spec (name : string) (acts : string option) : api =
+  let zs = match acts with None -> [] | Some a -> List.map z_of_hex (String.split_on_char '/' a) in
+  match name with
+  | "fetchread" -> AFetchRead zs
+  | "connread" -> AFetchRead zs
+  | "connreadmsg" -> AFetchRead [z_of_int (-1)]
+  | _ -> api_of_name name
+
 let rec pr_val (v : val0) : string =
   match v with
   | VZ z -> hex_of_z z
@@ -48,20 +57,35 @@ let pr_err = function
   | ENegCount -> "negcount" | EPanic -> "panic" | ENoProgress -> "noprogress"
   | EClosed -> "closed" | EUnmodelled -> "unmodelled"
 
+let pr_reads (v : val0) : string =
+  let cls c = match int_of_z c with 0 -> "ok" | 1 -> "shortbuf" | 2 -> "eof" | _ -> "?" in
+  match v with
+  | VL [VZ flag; VZ boff; VL outs] ->
+    let act = function
+      | VL [VZ kind; VZ n; VB k; VB b; VZ c] ->
+        if int_of_z kind = 0 then String.concat "," ["r"; hex_of_z n; hex_of_bytes b; cls c]
+        else if int_of_z c = 0 then String.concat "," ["m"; hex_of_z n; hex_of_bytes k; hex_of_bytes b; "ok"]
+        else "m," ^ cls c
+      | _ -> "?" in
+    "reads:" ^ (if int_of_z flag = 1 then "shortbuf" else "ok") ^ ":" ^ hex_of_z boff ^ ":["
+    ^ String.concat ";" (List.map act outs) ^ "]"
+  | _ -> "reads:?"
+
 let pr_result (a : api) (ver : int) (r : result) : string =
   match r with
   | RErr e -> pr_err e
   | ROk v ->
+    (match a with AFetchRead _ -> pr_reads v | _ ->
     "ok=" ^ (match a with
       | AMetadata -> pr_partitions ver v
       | ASaslHandshake -> "-"
       | ASaslAuthenticate -> pr_val (fld 2 v)
-      | _ -> pr_val v)
+      | _ -> pr_val v))
 
 (* the versions Conn offers to apiVersionMap.negotiate per API (conn.go); the broker's max is
    pinned to the case's version by the harness, and its fake checks the version actually sent *)
 let supported = function
-  | AProduce -> [2; 3; 7] | AFetch -> [2; 5; 10] | AMetadata -> [1; 6] | AJoinGroup -> [1; 2]
+  | AProduce -> [2; 3; 7] | AFetch | AFetchRead _ -> [2; 5; 10] | AMetadata -> [1; 6] | AJoinGroup -> [1; 2]
   | ACreateTopics -> [0; 1; 2] | ADeleteTopics -> [0; 1] | ASaslHandshake -> [0; 1] | _ -> []
 let negotiate_ok api ver =
   match supported api with
@@ -76,8 +100,10 @@ let eval (a : string list) : string =
     let topic = bytes_of_hex topic in
     let ops = List.map (fun s ->
       match String.split_on_char ':' s with
-      | [name; ver; off] ->
-        (api_of_name name, int_of_n (n_of_hex ver), { op_api = api_of_name name; op_ver = n_of_hex ver; op_off = z_of_hex off })
+      | name :: ver :: off :: rest ->
+        let a = api_of_spec name (match rest with [x] -> Some x | _ -> None) in
+        let ver = if ver = "-" then "0" else ver in
+        (a, int_of_n (n_of_hex ver), { op_api = a; op_ver = n_of_hex ver; op_off = z_of_hex off })
       | _ -> failwith "bad op") (split_on ',' ops) in
     let stream = if frames = "." then [] else List.concat_map bytes_of_hex (split_on ',' frames) in
     let stream = if cut = "-" then stream else take (int_of_n (n_of_hex cut)) stream in
@@ -98,11 +124,34 @@ let eval (a : string list) : string =
     String.concat " " toks
   | _ -> "BADCASE"
 
+(* nrun: the Conn is not primed; versions are negotiated by conn_nop (loadVersions as a step) *)
+let eval_n (a : string list) : string =
+  match a with
+  | [topic; ops; frames; cut] ->
+    let topic = bytes_of_hex topic in
+    let ops = List.map (fun s ->
+      match String.split_on_char ':' s with
+      | name :: ver :: off :: rest ->
+        let a = api_of_spec name (match rest with [x] -> Some x | _ -> None) in
+        (a, (if ver = "-" then 0 else int_of_n (n_of_hex ver)), z_of_hex off)
+      | _ -> failwith "bad op") (split_on ',' ops) in
+    let stream = if frames = "." then [] else List.concat_map bytes_of_hex (split_on ',' frames) in
+    let stream = if cut = "-" then stream else take (int_of_n (n_of_hex cut)) stream in
+    let c = ref ({ closed = false; corr = z_of_int 0; cfg_topic = topic; offset = z_of_int (-1) }, None) in
+    let s = ref stream in
+    let toks = List.map (fun (api, ver, off) ->
+      let ((c', r), s') = conn_nop !c api off !s in
+      c := c'; s := s';
+      pr_result api ver r ^ "~" ^ (if (fst c').closed then "1" else "0")) ops in
+    String.concat " " toks
+  | _ -> "BADCASE"
+
 let () =
   run_lines (fun line ->
     let case = (match String.index_opt line '|' with
         | Some i -> String.sub line 0 i | None -> line) in
     match words case with
     | id :: "run" :: rest -> id ^ " " ^ (try eval rest with Failure m -> "BADCASE:" ^ m)
+    | id :: "nrun" :: rest -> id ^ " " ^ (try eval_n rest with Failure m -> "BADCASE:" ^ m)
     | id :: _ -> id ^ " BADCASE"
     | [] -> "")
